@@ -270,22 +270,18 @@ func (w *World) checkDelegationQueries() {
 		}
 		if bal.IsPositive() {
 			// the reported balance can be undelegated, one unit more cannot
-			c1, _, e1 := w.runBranch(func(ctx sdk.Context) error {
+			c1, o1, _ := w.runBranch(func(ctx sdk.Context) error {
 				_, err := w.Msg.Undelegate(ctx, &types.MsgUndelegate{DelegatorAddress: w.AccAddr(p.u).String(), ValidatorAddress: w.ValAddr(p.v).String(),
 					Amount: sdk.NewCoin(denomName(p.d), bal)})
 				return err
 			}, func(int) bool { return false })
-			if c1 != rOK {
-				w.monitor("C20", "reported-balance-not-undelegatable-"+errKind(e1))
-			}
-			c2, _, _ := w.runBranch(func(ctx sdk.Context) error {
+			w.emitProbe(20, c1, false, o1, fmt.Sprintf("11 %d %d %d %s", p.u, p.v, p.d, intStr(bal)))
+			c2, o2, _ := w.runBranch(func(ctx sdk.Context) error {
 				_, err := w.Msg.Undelegate(ctx, &types.MsgUndelegate{DelegatorAddress: w.AccAddr(p.u).String(), ValidatorAddress: w.ValAddr(p.v).String(),
 					Amount: sdk.NewCoin(denomName(p.d), bal.AddRaw(1))})
 				return err
 			}, func(int) bool { return false })
-			if c2 == rOK {
-				w.monitor("C20", "more-than-reported-balance-undelegatable")
-			}
+			w.emitProbe(20, c2, true, o2, fmt.Sprintf("11 %d %d %d %s", p.u, p.v, p.d, intStr(bal.AddRaw(1))))
 		}
 	}
 	// binding asset view against the record
@@ -310,6 +306,14 @@ func (w *World) checkDelegationQueries() {
 
 // ------------------------------------------------------------------ C05 probes
 
+
+// emitProbe records a liveness probe executed on a discarded branch of the real state, for the
+// model to run the same message on the same state (trace tag P: property, class observed,
+// 1 if a failure is the expected outcome, "#", recorded withdrawals, "#", operation).
+func (w *World) emitProbe(prop, class int, expectFail bool, oracle, op string) {
+	w.emit("P %d %d %d # %s # %s", prop, class, b2i(expectFail), oracle, op)
+}
+
 func (w *World) checkLiveness() {
 	discard := func(int) bool { return false }
 	// enter: 1 unit and a large amount of every whitelisted asset to every validator
@@ -321,14 +325,12 @@ func (w *World) checkLiveness() {
 				if w.App.BankKeeper.GetBalance(w.Ctx, w.AccAddr(u), denomName(d)).Amount.LT(mustInt(amt)) {
 					continue
 				}
-				c, _, e := w.runBranch(func(ctx sdk.Context) error {
+				c, orc, _ := w.runBranch(func(ctx sdk.Context) error {
 					_, err := w.Msg.Delegate(ctx, &types.MsgDelegate{DelegatorAddress: w.AccAddr(u).String(), ValidatorAddress: w.ValAddr(v).String(),
 						Amount: sdk.NewCoin(denomName(d), mustInt(amt))})
 					return err
 				}, discard)
-				if c != rOK {
-					w.monitor("C05", "delegate-fails-"+errKind(e))
-				}
+				w.emitProbe(5, c, false, orc, fmt.Sprintf("10 %d %d %d %s", u, v, d, amt))
 			}
 		}
 	}
@@ -338,22 +340,18 @@ func (w *World) checkLiveness() {
 		if !bal.IsPositive() {
 			continue
 		}
-		c, _, e := w.runBranch(func(ctx sdk.Context) error {
+		c, orc, _ := w.runBranch(func(ctx sdk.Context) error {
 			_, err := w.Msg.ClaimDelegationRewards(ctx, &types.MsgClaimDelegationRewards{DelegatorAddress: w.AccAddr(p.u).String(),
 				ValidatorAddress: w.ValAddr(p.v).String(), Denom: denomName(p.d)})
 			return err
 		}, discard)
-		if c != rOK {
-			w.monitor("C05", "claim-fails-"+errKind(e))
-		}
-		c, _, e = w.runBranch(func(ctx sdk.Context) error {
+		w.emitProbe(5, c, false, orc, fmt.Sprintf("13 %d %d %d", p.u, p.v, p.d))
+		c, orc, _ = w.runBranch(func(ctx sdk.Context) error {
 			_, err := w.Msg.Undelegate(ctx, &types.MsgUndelegate{DelegatorAddress: w.AccAddr(p.u).String(), ValidatorAddress: w.ValAddr(p.v).String(),
 				Amount: sdk.NewCoin(denomName(p.d), bal)})
 			return err
 		}, discard)
-		if c != rOK {
-			w.monitor("C05", "undelegate-full-balance-fails-"+errKind(e))
-		}
+		w.emitProbe(5, c, false, orc, fmt.Sprintf("11 %d %d %d %s", p.u, p.v, p.d, intStr(bal)))
 	}
 	// claiming everything, in two orders, always succeeds (C12's observable)
 	ps := w.positions()
